@@ -369,6 +369,7 @@ class OneRx:
 def _oneshot_channel(m, args, ci):
     ch = OneShot('os%d' % len(m.st.oneshots))
     m.st.oneshots.append(ch)
+    m.event('oneshot_new', ch.label, sched(m).cur)
     return tuple_(OneTx(ch), OneRx(ch))
 
 @I.rx(r'^(tokio::sync::)?oneshot::Sender::send$')
